@@ -9,7 +9,7 @@ from typing import Dict, List, Optional, Tuple
 from ..cfg import CFG, EXIT
 from ..core import Ctx
 from ..model import AnalysisError, FuncInfo, dotted, kwarg, norm, walk_no_nested
-from .common import assigned_value, check_unitary_record, enclosing, expand_locals, flat_subscript, prog, resolve_local, source_order, stores_to, view_env
+from .common import assigned_value, check_alignment_record, check_unitary_record, enclosing, expand_locals, flat_subscript, prog, resolve_local, source_order, stores_to, view_env
 
 INF = float("inf")
 
@@ -396,6 +396,8 @@ def check_decoding(ctx: Ctx, F: IlpFacts, rules: Dict[str, str], result_class: s
         if r is None:
             return
         ctx.check(bool(cond), r, f, node, good, bad_detail=bad, key=name)
+    if "result" in rules:
+        check_alignment_record(ctx, rules["result"])
     if "slots" in rules and ("ua-record", rules["slots"]) not in ctx.notes.setdefault("ua_record", set()):
         ctx.notes["ua_record"].add(("ua-record", rules["slots"]))
         check_unitary_record(ctx, rules["slots"], nb_units=False)
